@@ -358,10 +358,19 @@ def print_assumptions(prop: str, theorems: Sequence[str]) -> dict[str, list[str]
 # verdict protocol
 # --------------------------------------------------------------------------------------
 
-def load_known() -> dict:
-    if KNOWN_FINDINGS.exists():
-        return json.loads(KNOWN_FINDINGS.read_text())
-    return {'known': [], 'fixed': []}
+def load_known(prop: Optional[str] = None) -> dict:
+    """Known findings: the committed per-property files findings/<prop>.json (merged for readers
+    into known_findings.json by tools/mkmanifest.py).  Only read at run time, never written."""
+    known, fixed = [], []
+    files = [VERIF / 'findings' / f'{prop}.json'] if prop else sorted((VERIF / 'findings').glob('C*.json'))
+    for f in files:
+        if f.exists():
+            d = json.loads(f.read_text())
+            for k in d.get('known', []):
+                known.append(dict(k, property=f.stem))
+            for k in d.get('fixed', []):
+                fixed.append(dict(k, property=f.stem))
+    return {'known': known, 'fixed': fixed}
 
 
 @dataclass
@@ -424,6 +433,12 @@ class Run:
             log(f'[{self.prop}] finding {f.key}: {f.what}')
             self.findings.append(f)
 
+    def known_witnesses(self) -> list:
+        """(key, witness, is_fixed) of every listed finding of this property, for replay on each run."""
+        k = load_known(self.prop)
+        return ([(e['key'], e.get('witness'), False) for e in k['known']] +
+                [(e['key'], e.get('witness'), True) for e in k['fixed']])
+
     # L1 -----------------------------------------------------------------------------
     def prove(self, translators: Sequence[str], extra_targets: Sequence[str] = ()) -> bool:
         """Regenerate, build Props.vo of this property, check assumptions. Records broken obligations."""
@@ -461,7 +476,7 @@ class Run:
 
     # verdict ------------------------------------------------------------------------
     def finish(self, level: str = 'proof') -> int:
-        known = load_known()
+        known = load_known(self.prop)
         known_keys = {k['key']: k for k in known.get('known', []) if k.get('property') == self.prop}
         rc = 0
         lines = []
